@@ -18,8 +18,6 @@
 package c10
 
 import (
-	"sync"
-	"syscall"
 	"debug/elf"
 	"debug/gosym"
 	"fmt"
@@ -27,6 +25,8 @@ import (
 	"runtime"
 	"sort"
 	"strings"
+	"sync"
+	"syscall"
 	"unicode"
 	"unicode/utf8"
 
@@ -111,6 +111,7 @@ type truth struct {
 	varNames  []string // cases, sorted
 
 	nRuntimeFuncs, nPclntabFuncs, nDupFuncNames, nRuntimeOnlyNames, nRuntimeUnnamed int
+	nDupResolved                                                            int
 	nElfSyms, nElfObjects, nDupSymNames, nGenVars                                   int
 	nVarsBss, nVarsData                                                             int
 	nResolved, nErrors                                                              int64
@@ -323,6 +324,31 @@ func buildTruth(sub string) *truth {
 			}
 		}
 	}
+	// A function name that occurs twice in the function table is a function plus the ABI wrapper the
+	// compiler generated for it (ABI0 wrapper of a Go function that assembly calls, ABIInternal
+	// wrapper of an assembly function). The wrapper's line table says "<autogenerated>"; where
+	// exactly one entry of the name is not autogenerated, that entry is *the* symbol of that name.
+	for n, as := range t.funcs {
+		if len(as) < 2 {
+			continue
+		}
+		var real []uintptr
+		for _, a := range as {
+			if f := runtime.FuncForPC(a); f != nil && f.Entry() == a {
+				if file, _ := f.FileLine(a); file != "<autogenerated>" {
+					real = append(real, a)
+				}
+			}
+		}
+		if len(real) == 1 {
+			t.funcs[n] = real
+			if sub == "default" || sub == "cgo" {
+				t.mustFunc[n] = true
+			}
+			t.nDupFuncNames--
+			t.nDupResolved++
+		}
+	}
 	gen := c10vars.Vars()
 	if len(gen) < 200 || len(gen) != c10vars.NVars {
 		vk.Fatalf("only %d generated variables", len(gen))
@@ -496,6 +522,7 @@ func Run(c *vk.Ctx) {
 	ex["pclntab_funcs"] = t.nPclntabFuncs
 	ex["func_names"] = len(t.funcNames)
 	ex["dup_func_names_weakly_judged"] = t.nDupFuncNames
+	ex["dup_func_names_resolved_as_the_non_autogenerated_entry"] = t.nDupResolved
 	ex["runtime_only_generic_names"] = t.nRuntimeOnlyNames
 	ex["runtime_unnamed_funcs"] = t.nRuntimeUnnamed
 	ex["elf_symbols"] = t.nElfSyms
